@@ -33,14 +33,28 @@ func vpH_C04_bigstats() {
 		}
 		docs = append(docs, doc)
 	}
-	seg := vpBuild(docs, 1025)
+	// the adaptive mode, or a small fixed chunk size (many chunks per postings list)
+	mode := []uint32{1025, 2}[vpChoice("mode", 2)]
+	seg := vpBuild(docs, mode)
 	if vpChoice("merged", 2) == 1 {
-		mb, _ := vpMergeBytes([]*Segment{seg}, []*roaring.Bitmap{nil}, 1025)
+		mb, _ := vpMergeBytes([]*Segment{seg}, []*roaring.Bitmap{nil}, mode)
 		seg = vpLoad(mb)
 	}
 	b := vpPersist(seg)
 	l := vpLoad(b)
 	lf, _ := vpLoadFile(b)
+	// the sparse term of the last field, read with frequencies through both loaded forms
+	for _, other := range []*Segment{l, lf} {
+		d, err := other.Dictionary("zlast")
+		vpMust(err, "Dictionary(last field)")
+		pl, err := d.PostingsList([]byte("z"), nil, nil)
+		vpMust(err, "PostingsList")
+		it, err := pl.Iterator(true, true, true, nil)
+		vpMust(err, "Iterator")
+		p, err := it.Next()
+		vpMust(err, "Next")
+		vpAssert(p != nil && p.Number() == 3 && p.Frequency() == 2, "posting of the sparse term of the last field")
+	}
 	for _, f := range []string{"_id", "a", long, "zlast", "nofield"} {
 		s0, err := seg.CollectionStats(f)
 		vpMust(err, "CollectionStats")
